@@ -323,7 +323,7 @@ def task(t):
 def _task(t):
     seed, layout, wname, family, variant, nsl, sl = t
     acc = core.Acc()
-    docs = corpus.universe_docs(D, seed)
+    docs = corpus.universe_docs(D, seed, mix=True)
     ix, docs = corpus.build_index(docs, layout)
     try:
         nlive = sum(1 for d in docs if d["live"])
@@ -484,7 +484,7 @@ def replay(case):
             lim, sk, rp = full_and_limited(s, q, case["k"], {})
         res = compare(full, lim, case["k"])
         return {"ok": res is None, "kind": res, "query": repr(q), "what": "limited %r exhaustive %r" % (lim, full)}
-    docs = corpus.universe_docs(D, case.get("seed", 0))
+    docs = corpus.universe_docs(D, case.get("seed", 0), mix=True)
     ix, docs = corpus.build_index(docs, case["layout"])
     with ix.searcher(weighting=weighting(case["weighting"])) as s:
         kind, detail, sk, rp = outcome(s, case["ast"], case["k"], case["variant"])
